@@ -217,6 +217,11 @@ def fam_suppress(p: Dict[str, Any], problems: List[str], w: World) -> Tuple[str,
         box["b2"] = AsyncServiceBrowser(zc, TA, listener=Lst(), question_type=second_type)
 
     loop.call_at((t2 - 20) / 1000, start_second)
+    if p.get("third_after"):
+        def cancel_second() -> None:
+            b2 = box["b2"]
+            b2._async_cancel() if hasattr(b2, "_async_cancel") else w.spawn(b2.async_cancel())
+        loop.call_at((t2 + 0.3) / 1000, cancel_second)
     w.advance_to_ms(t2 + 0.2)
     sent = [Decoded(s) for s in w.net.trace if s.host == host.name and abs(s.t_us / 1000 - t2) < 0.01]
     asked = [d for d in sent if not d.is_response and any(q[1] == TA and q[2] == 12 for q in d.msg.questions)]
@@ -232,6 +237,21 @@ def fam_suppress(p: Dict[str, Any], problems: List[str], w: World) -> Tuple[str,
     if suppressed_expected and asked:
         problems.append(f"suppression: the QM question was asked again {gap} ms after it was "
                         f"{'heard' if heard else 'asked'} with known answers it fully knows")
+    if p.get("third_after") and suppressed_expected and not asked:
+        # a third asker of this instance: the second one's question was withheld, so the last time the question really was
+        # asked or heard is still t1 - more than 999 ms ago by now
+        t3 = t2 + p["third_after"]
+
+        def start_third() -> None:
+            box["b3"] = AsyncServiceBrowser(zc, TA, listener=Lst(), question_type=DNSQuestionType.QM)
+
+        loop.call_at((t3 - 20) / 1000, start_third)
+        w.advance_to_ms(t3 + 0.2)
+        sent3 = [Decoded(s) for s in w.net.trace if s.host == host.name and abs(s.t_us / 1000 - t3) < 0.01]
+        asked3 = [d for d in sent3 if not d.is_response and any(q[1] == TA and q[2] == 12 for q in d.msg.questions)]
+        if t3 - t1 > 999 and not asked3:
+            problems.append(f"suppression: a third asker {t3 - t1:.0f} ms after the question was last really asked or heard "
+                            f"(a withheld attempt {p['third_after']} ms ago does not count) was suppressed")
     if not suppressed_expected and not asked:
         why = "QU questions are never suppressed" if qu_second else (
             f"{gap} ms > 999 ms" if gap > 999 else "the earlier asker listed a known answer this instance does not hold with more than half of its TTL")
@@ -386,6 +406,11 @@ def points(tier: str) -> List[Dict[str, Any]]:
                     if first == "heard" and second == "QM" and gap in (1, 500, 999, 1000):
                         pts.append({"fam": "suppress", "first": first, "gap": gap, "rel": rel, "second": second,
                                     "heard_split": True})
+                    if second == "QM" and gap in (500, 700, 999) and rel == "equal" and first in ("heard", "own"):
+                        for third in (300, 500, 998):
+                            if gap + third > 999:
+                                pts.append({"fam": "suppress", "first": first, "gap": gap, "rel": rel, "second": second,
+                                            "third_after": third})
                     if first == "heard" and second == "QM" and gap in (1, 500, 999) and rel == "equal":
                         pts.append({"fam": "suppress", "first": first, "gap": gap, "rel": "stale-held", "second": second})
                     if first == "heard" and second == "QM" and gap in (500, 998, 999, 1000):
